@@ -1,5 +1,5 @@
 (* C13 — :lang() is RFC 4647 extended filtering over the inherited language.  Statements only. *)
-From SV Require Import Base Regex Tree IR Lit Inputs Match LangFacts.
+From SV Require Import Base Regex Tree IR Lit Inputs Match LangFacts LangWalk MemoFacts HistFacts.
 
 (* The filter decision on subtag lists is exactly RFC 4647 section 3.3.2 (wildcards other than a leading
    one are removed beforehand, which is what "a wildcard matches any sequence of subtags including none"
@@ -8,10 +8,35 @@ Theorem C13_filter : forall ranges subtags, elf_core ranges subtags = true <-> e
 Proof. exact elf_core_spec. Qed.
 Print Assumptions C13_filter.
 
-(* FULL STATEMENT also covers (a) the string level: splitting at '-', ASCII lower-casing and the removal of
-   non-leading wildcards by the REGENERATED pattern RE_WILD_STRIP, and (b) the language determination walk
-   (match_lang).  Both are executed by the extracted model against the implementation and the independent
-   RFC 4647 / language-of oracle on every run; they are not yet theorems (partial). *)
+(* Which attribute carries the language: `lang` when the tree is not namespace-aware or the element is in the XHTML
+   namespace, `xml:lang` (XML namespace) otherwise; the FIRST such attribute in the element's attribute order. *)
+Theorem C13_language_attribute : forall cx has_ns html_ns l,
+  (forall kv, In kv l -> exists v, normalize_value (snd kv) = Ok v) ->
+  lang_attr cx has_ns html_ns l =
+  match find (fun kv => is_lang_key cx has_ns html_ns (fst kv)) l with
+  | Some kv => match normalize_value (snd kv) with Ok v => Ok (Some v) | Raise e => Raise e end
+  | None => Ok None
+  end.
+Proof. exact lang_attr_first. Qed.
+Print Assumptions C13_language_attribute.
+
+(* The walk finds the language of the NEAREST ancestor-or-self that has one, inside the element's own document (the
+   iframe restriction of HTML documents is part of get_parent), and that language is unique. *)
+Theorem C13_nearest_language : forall cx fuel p r last top, lang_walk cx fuel p = Ok (r, last, top) -> lang_of cx p r.
+Proof. exact lang_walk_sound. Qed.
+Print Assumptions C13_nearest_language.
+Theorem C13_language_unique : forall cx p r1 r2, lang_of cx p r1 -> lang_of cx p r2 -> r1 = r2.
+Proof. exact lang_of_functional. Qed.
+Print Assumptions C13_language_unique.
+
+(* The <meta> fallback is memoised per document root; the memo never changes an answer (any consistent memo gives the
+   answer of the empty one). *)
+Theorem C13_meta_memo_transparent : forall cx p langs, det cx (match_lang cx p langs).
+Proof. exact det_lang. Qed.
+Print Assumptions C13_meta_memo_transparent.
+
+(* Still executed rather than proved (partial): the string level - splitting at '-', ASCII lower-casing and the removal of
+   non-leading wildcards by the REGENERATED pattern RE_WILD_STRIP - and the <meta> scan itself. *)
 
 Example C13_nonvacuous :
   elf_spec [s2l_de; s2l_DE] [s2l_de; s2l_latn; s2l_DE] /\ ~ elf_spec [s2l_de; s2l_DE] [s2l_de; s2l_x; s2l_DE] /\
